@@ -48,6 +48,7 @@ type Engine struct {
 	fileByName map[string]*ast.File
 	intrinsics map[string]intrinsicFn
 	roGlobals  map[string]bool
+	ghostNames map[string]int
 	Errors     []string
 }
 
@@ -61,7 +62,7 @@ func NewEngine(repo, mirror string) *Engine {
 		funcIDs: map[*ssa.Function]int{}, strLits: map[string]int{}, globals: map[*ssa.Global]int{},
 		loopInfos: map[*ssa.Function]*loopInfo{}, regAllocs: map[*ssa.Function]map[*ssa.Alloc]bool{},
 		fileByName: map[string]*ast.File{}, intrinsics: map[string]intrinsicFn{}, roGlobals: map[string]bool{},
-		AllPkgs: map[string]*packages.Package{}}
+		AllPkgs: map[string]*packages.Package{}, ghostNames: map[string]int{}}
 	e.registerIntrinsics()
 	return e
 }
@@ -316,7 +317,7 @@ func (e *Engine) externKey(bc *BoundContract) (string, error) {
 	if fc.Recv != "" {
 		rt := bc.Params[0].Type()
 		if _, isIface := rt.Underlying().(*types.Interface); isIface {
-			return "(" + types.TypeString(rt, nil) + ")." + fc.Name, nil
+			return "(" + types.TypeString(types.Unalias(rt), nil) + ")." + fc.Name, nil
 		}
 		// concrete method: find ssa function
 		ms := e.Prog.MethodSets.MethodSet(rt)
@@ -371,7 +372,7 @@ func (e *Engine) bindClauses(bc *BoundContract) error {
 	for i := range fc.Clauses {
 		cl := &fc.Clauses[i]
 		switch cl.Kind {
-		case "requires", "ensures", "invariant", "decreases", "modifies", "fresh", "assert", "split":
+		case "requires", "ensures", "invariant", "decreases", "modifies", "fresh", "assert", "split", "appends", "copies":
 			if ci >= len(calls) {
 				return fmt.Errorf("%s:%d: clause/statement mismatch", fc.File, cl.Line)
 			}
@@ -384,6 +385,10 @@ func (e *Engine) bindClauses(bc *BoundContract) error {
 				bc.Ensures = append(bc.Ensures, ClauseExpr{call.Args[0], cl, bc})
 			case "assert":
 				bc.Asserts = append(bc.Asserts, ClauseExpr{call.Args[0], cl, bc})
+			case "appends":
+				bc.Appends = append(bc.Appends, [2]ast.Expr{call.Args[0], call.Args[1]})
+			case "copies":
+				bc.Copies = append(bc.Copies, [3]ast.Expr{call.Args[0], call.Args[1], call.Args[2]})
 			case "split":
 				if cl.Loop >= 0 {
 					bc.LoopSplit[cl.Loop] = append(bc.LoopSplit[cl.Loop], call.Args[1:]...)
@@ -428,6 +433,10 @@ func (e *Engine) bindClauses(bc *BoundContract) error {
 			}
 		case "inline":
 			bc.Inline = true
+		case "calls_only":
+			for _, f := range strings.Split(cl.Text, ",") {
+				bc.CallsOnly = append(bc.CallsOnly, strings.TrimSpace(f))
+			}
 		case "pure":
 			bc.Pure = true
 		case "terminates":
@@ -590,6 +599,12 @@ func (e *Engine) VerifyFunc(bc *BoundContract) (rep *FuncReport) {
 			u.addObl(&Obligation{Kind: "panic-contained", Name: "first deferred call recovers unconditionally", PC: c.True, Goal: c.True, Pos: e.Fset.Position(fn.Pos())})
 		}
 	}
+	if len(bc.CallsOnly) > 0 {
+		for _, bad := range calleesOutside(fn, bc.CallsOnly) {
+			u.addObl(&Obligation{Kind: "calls", Name: "calls only whitelisted functions: " + bad, PC: c.True, Goal: c.False, Pos: e.Fset.Position(fn.Pos())})
+		}
+		u.addObl(&Obligation{Kind: "calls", Name: "callee set within " + strings.Join(bc.CallsOnly, ", "), PC: c.True, Goal: c.True, Pos: e.Fset.Position(fn.Pos())})
+	}
 	vals, out := u.runFunction(fr, st.clone(), args)
 	if out != nil {
 		post := u.newSpecEnv(bc, out, st, args, vals)
@@ -671,4 +686,52 @@ func (e *Engine) SortedContracts() []*BoundContract {
 		return a.FC.Line < b.FC.Line
 	})
 	return out
+}
+
+// calleesOutside lists the calls (static callees, interface methods, go/defer targets) of fn that are not whitelisted.
+func calleesOutside(fn *ssa.Function, allowed []string) []string {
+	ok := map[string]bool{}
+	for _, a := range allowed {
+		ok[a] = true
+	}
+	var bad []string
+	seen := map[string]bool{}
+	var visit func(f *ssa.Function)
+	visit = func(f *ssa.Function) {
+		for _, b := range f.Blocks {
+			for _, in := range b.Instrs {
+				var cc *ssa.CallCommon
+				switch x := in.(type) {
+				case *ssa.Call:
+					cc = &x.Call
+				case *ssa.Defer:
+					cc = &x.Call
+				case *ssa.Go:
+					cc = &x.Call
+				default:
+					continue
+				}
+				name := ""
+				if cc.IsInvoke() {
+					name = "(" + types.TypeString(types.Unalias(cc.Value.Type()), nil) + ")." + cc.Method.Name()
+				} else if sf := cc.StaticCallee(); sf != nil {
+					name = sf.String()
+				} else if _, isB := cc.Value.(*ssa.Builtin); isB {
+					continue
+				} else {
+					name = "dynamic call"
+				}
+				if !ok[name] && !seen[name] {
+					seen[name] = true
+					bad = append(bad, name)
+				}
+			}
+		}
+		for _, af := range f.AnonFuncs {
+			visit(af)
+		}
+	}
+	visit(fn)
+	sort.Strings(bad)
+	return bad
 }
